@@ -143,6 +143,10 @@ mutual
     /-- a visible (or aliased) rule produces one node whose children derive from the rule's body -/
     | symVisible {c x b k n kids} : g.body x = some b → nodeKind g c x = some (k, n) → NodeBody g b kids →
         Matches g (.sym x) c [.mk k n false c.effField kids]
+    /-- a hidden rule under an alias whose body yields a single node: the reduction is a unit reduction
+    the generator removes, and that node itself carries the alias -/
+    | symAliasedUnit {c x b v n y} : g.body x = some b → g.hidden x = true → nodeKind g c x = some (v, n) →
+        Matches g b { fField := c.effField, fAlias := some (v, n) } [y] → Matches g (.sym x) c [y]
     /-- an external token (no rule of that name): a leaf when visible, nothing when hidden -/
     | symExternalHidden {c x} : g.body x = none → nodeKind g c x = none → Matches g (.sym x) c []
     | symExternalVisible {c x k n} : g.body x = none → nodeKind g c x = some (k, n) →
@@ -246,10 +250,16 @@ mutual
           | none =>
             (if isTerminalBody b then [cs] else []) ++ matchRule g f b (expandCtx g c x) cs
           | some (k, n) =>
-            match cs with
+            (match cs with
             | .mk k' n' false f' kids :: rest =>
               if k' = k ∧ n' = n ∧ f' = c.effField ∧ checkBody g f b kids = true then [rest] else []
-            | _ => []
+            | _ => []) ++
+            (match cs with
+            | y :: rest =>
+              if g.hidden x = true ∧
+                  (matchRule g f b { fField := c.effField, fAlias := some (k, n) } [y]).any (fun rem => rem.isEmpty) = true
+              then [rest] else []
+            | [] => [])
       | .unknown _ => []
   def checkBody (g : Grammar) : Nat → Rule → List VNode → Bool
     | 0, _, _ => false
